@@ -1,3 +1,34 @@
-import EspadaVerif.Model.Range
+/-
+C06 — Formatting a range and parsing the text back gives the same range.
+
+Weights range over a domain `inDom` (the weights in [0,1]) on which the assumed properties of `f32` text
+conversion hold (`TextDefs.WTextOk`): `==` is equality, a weight other than 1 prints in the weight grammar,
+print-then-parse is the identity, the empty text is not a number.
+-/
+import EspadaVerif.Lemmas.TokenFacts
+import EspadaVerif.Lemmas.RangeAux
+import EspadaVerif.Lemmas.FormatFacts
+import EspadaVerif.Lemmas.RankPairFacts
+import EspadaVerif.Props.C09
+
 namespace EspadaVerif.C06
+open EspadaVerif TextDefs
+
+variable {W : Type}
+
+/-- **C06 (token).** The text of every token that satisfies the parser's own well-formedness conditions (`TokenOk`:
+in particular every token the formatter emits and every parsed token) parses back to an equal token. -/
+theorem C06_token (wt : WText W) (inDom : W → Prop) (hok : WTextOk wt inDom) (tok : Token W)
+    (hk : TokenFacts.TokenOk tok.kind) (hw : inDom tok.prob) :
+    parseToken wt (tok.show wt) = .ok tok := by
+  sorry
+
+/-- **C06 (range).** For every range whose combos are pairs of distinct cards (in canonical order) with weights in the
+domain, the text form parses back to a range with the same combos and the same weights — however the combos group
+into complete rank pairs, runs of adjacent rank pairs with equal weight, or leftover single combos. -/
+theorem C06_range (wt : WText W) (inDom : W → Prop) (hok : WTextOk wt inDom) (r : HandRange W)
+    (hr : ∀ e ∈ r, ComboOk e.1 ∧ inDom e.2) :
+    ∃ txt r', showRange wt r = .ok txt ∧ parseRange wt txt = .ok r' ∧ ∀ c, r'.lookup c = r.lookup c := by
+  sorry
+
 end EspadaVerif.C06
